@@ -93,7 +93,7 @@ func vMkWorld() *vWorld {
 		}
 	}
 	// an endpoint object that was removed while recovering: its timer is still live
-	if w.r > 0 && !verifFlag("lean") && verifBool("hasOrphan") {
+	if w.r > 0 && (!verifFlag("lean") || verifFlag("orphan")) && verifBool("hasOrphan") {
 		w.orphan = &endpoint{id: verifChoose("orphanId", "A", "B", "C"), priority: verifInt("orphanPrio"), status: recovering, lastChange: time.Unix(0, int64(verifInt("orphanLastChange")))}
 		verifAssume(w.orphan.lastChange.UnixNano() >= 0 && w.orphan.lastChange.UnixNano() <= vNow)
 		m.scheduleUnavailable(w.orphan)
